@@ -269,7 +269,7 @@ def outOfOrder (g : Dir A) (n : Nat) : Bool :=
     `trash/`, the names leave `trash/` and the fragment leaves `mani/`, in one step -/
 def absStep (C : Checker A) (g : Dir A) (n : Nat) (es : List Edit) : Option (Dir A) :=
   if outOfOrder g n then none
-  else match C.check g.vO es, plan es with
+  else match checkAll C g es, plan C.asWas (laterRm g n) es with
     | some o, some names =>
       if names.all (fun x => g.trash.contains x) then some (finish (g.apply (Act.intent n es names o))) else none
     | _, _ => none
@@ -337,7 +337,7 @@ theorem outOfOrder_of_complete (d : Dir A) (n : Nat) (a1 : List (Act A)) (h : co
 
 /-- the abstract step that corresponds to a processed entry -/
 theorem absStep_processed (C : Checker A) (g : Dir A) (n : Nat) (es : List Edit) (o : A) (names : List Name)
-    (ho : outOfOrder g n = false) (hck : C.check g.vO es = some o) (hp : plan es = some names)
+    (ho : outOfOrder g n = false) (hck : checkAll C g es = some o) (hp : plan C.asWas (laterRm g n) es = some names)
     (ht : ∀ x, x ∈ names → x ∈ g.trash) :
     absStep C g n es = some (finish (g.apply (Act.intent n es names o))) := by
   unfold absStep
@@ -348,7 +348,7 @@ theorem absStep_processed (C : Checker A) (g : Dir A) (n : Nat) (es : List Edit)
 
 /-- the abstract step on an entry the real pass stops at -/
 theorem absStep_stopped (C : Checker A) (g : Dir A) (n : Nat) (es : List Edit) (hv : g.vstrs = [])
-    (hr : g.vstrs ≠ [] ∨ ∀ o names, C.check g.vO es = some o → plan es = some names → ∃ x, x ∈ names ∧ x ∉ g.trash) :
+    (hr : g.vstrs ≠ [] ∨ ∀ o names, checkAll C g es = some o → plan C.asWas (laterRm g n) es = some names → ∃ x, x ∈ names ∧ x ∉ g.trash) :
     absStep C g n es = none := by
   unfold absStep
   by_cases ho : outOfOrder g n = true
@@ -356,10 +356,10 @@ theorem absStep_stopped (C : Checker A) (g : Dir A) (n : Nat) (es : List Edit) (
   · rw [if_neg ho]
     rcases hr with hr | hr
     · exact absurd hv hr
-    · cases hck : C.check g.vO es with
+    · cases hck : checkAll C g es with
       | none => rfl
       | some o =>
-        cases hp : plan es with
+        cases hp : plan C.asWas (laterRm g n) es with
         | none => rfl
         | some names =>
           obtain ⟨x, hx, hnt⟩ := hr o names hck hp
@@ -451,7 +451,7 @@ theorem finish_finalFrom (C : Checker A) : ∀ (ents : List (Nat × List Edit)) 
       have hst : (processOne C d n es).2 = .ok := by rw [hr]
       rw [passFrom_ok C d n es rest hst, hr]
       have hco := complete_other hc a1 h1 hm
-      rw [hco.1] at hv hck ht
+      rw [hco.1] at hv hck hp ht
       show finish (run d ((a1 ++ Act.intent n es names o :: completeList ((run d a1).apply (Act.intent n es names o)) n n)
         ++ (passFrom C (run d (a1 ++ Act.intent n es names o :: completeList ((run d a1).apply (Act.intent n es names o)) n n)) rest).1)) = _
       rw [hco.1]
@@ -546,7 +546,7 @@ theorem good_prefix (C : Checker A) : ∀ (ents : List (Nat × List Edit)) (d : 
       have hst : (processOne C d n es).2 = .ok := by rw [hr]
       rw [passFrom_ok C d n es rest hst, hr, entsAfter_other d n es rest hm]
       have hco := complete_other hc a1 h1 hm
-      rw [hco.1] at hv hck ht
+      rw [hco.1] at hv hck hp ht
       show Good C tl _ _ _ (run d (((a1 ++ Act.intent n es names o :: completeList ((run d a1).apply (Act.intent n es names o)) n n)
         ++ (passFrom C (run d (a1 ++ Act.intent n es names o :: completeList ((run d a1).apply (Act.intent n es names o)) n n)) rest).1).take k))
       rw [hco.1]
@@ -699,5 +699,30 @@ theorem cleanup_after_restarts (C : Checker A) (d0 d : Dir A) (hs : Sorted d0) (
   refine ⟨hch, ?_, Blue.Orphans.moved_not_listed sst trash _ hch⟩
   unfold Blue.Orphans.listed fragLists
   rw [List.getLast?_concat, List.getLast?_concat, hlive]
+
+/-! ### D-28: removed, written again under the same name, removed again
+
+    `x` is removed by fragment 1, added again by fragment 2, removed again by fragment 3; one copy of
+    it is in `trash/`.  The plan of the code as it was gives that copy to fragment 1: the check of
+    fragment 2 then finds `x` neither in `trash/` nor in `sst/`, and so does every later pass.  The
+    repaired plan leaves it to fragment 3. -/
+def exR : Dir Name :=
+  { sst := [], trash := [[120, 46, 115, 115, 116]], live := [⟨[], [], [(73, [51]), (79, [51]), (68, [48])]⟩],
+    frags := [(1, [⟨[], [[120]], [(73, [48]), (79, [48]), (68, [48])]⟩, ⟨[[120]], [], [(73, [48]), (79, [49]), (68, [48])]⟩]),
+              (2, [⟨[], [], [(73, [48]), (79, [49]), (68, [48])]⟩, ⟨[], [[120]], [(73, [49]), (79, [50]), (68, [48])]⟩]),
+              (3, [⟨[], [[120]], [(73, [49]), (79, [50]), (68, [48])]⟩, ⟨[[120]], [], [(73, [50]), (79, [51]), (68, [48])]⟩]),
+              (4, [⟨[], [], [(73, [50]), (79, [51]), (68, [48])]⟩])],
+    vstrs := [], vM := none, vO := [48], done := [] }
+
+/-- as the code was: the pass stops at fragment 2 with an error, the copy gone; and again, forever -/
+theorem exR_as_was : (pass chainCheckerAsWas exR).2 = .corrupt ∧ (final chainCheckerAsWas exR).trash = []
+    ∧ (final chainCheckerAsWas exR).frags.map (·.1) = [2, 3, 4]
+    ∧ (pass chainCheckerAsWas (final chainCheckerAsWas exR)).2 = .corrupt
+    ∧ (final chainCheckerAsWas (final chainCheckerAsWas exR)).frags.map (·.1) = [2, 3, 4] := by decide
+
+/-- as repaired: the pass goes through; fragment 3 takes the copy -/
+theorem exR_repaired : (pass chainChecker exR).2 = .ok ∧ (final chainChecker exR).trash = []
+    ∧ (final chainChecker exR).frags.map (·.1) = [4]
+    ∧ (run exR ((pass chainChecker exR).1.take 4)).trash = [[120, 46, 115, 115, 116]] := by decide
 
 end Blue.Verifier
